@@ -442,6 +442,7 @@ func (bkt *Bucket) get(ki *KeyInfo, memOnly bool) (payload *Payload, pos Positio
 		payload.Meta = *meta
 		return // omit collision
 	}
+	verifPoint("get.looked")
 	beforeGetRecord := time.Now()
 	rec, inbuffer, err := bkt.datas.GetRecordByPos(pos)
 	getRecordTimeCost := time.Now().Sub(beforeGetRecord).Seconds() * 1000 // Millisecond
